@@ -9,7 +9,7 @@
    selection.  The index-level theorems hold for every index that describes the points. *)
 From Coq Require Import List ZArith NArith Bool.
 From TF Require Import Base Query Index DB Spec proofs.IndexDefs proofs.RepP proofs.DBReadP proofs.DBRemoveP
-     proofs.DBStepP proofs.DBRunP proofs.DBSpecP proofs.GetterP.
+     proofs.DBStepP proofs.DBRunP proofs.DBSpecP proofs.GetterP proofs.LawsP.
 Import ListNotations.
 
 Theorem C07_len_exact : forall s, Inv s -> db_len s = (s, ONat (length (st_rows s))).
@@ -37,6 +37,22 @@ Proof. exact ix_get_tag_values_spec. Qed.
 Theorem C07_index_timestamps : forall i pts m, Rep i pts -> ix_get_timestamps i m = map p_time (in_meas m pts).
 Proof. exact ix_get_timestamps_spec. Qed.
 
+(* laws: a dropped measurement is no longer listed (and nothing else disappears); an insert only adds to what the getters list *)
+Theorem C07_drop_removes_measurement : forall E s name, Inv s -> name <> [] ->
+  let db' := st_rows (fst (db_drop E s name)) in
+  ~ In name (spec_measurements db') /\
+  (forall m, m <> name -> In m (spec_measurements (st_rows s)) -> In m (spec_measurements db')).
+Proof. exact drop_removes_measurement. Qed.
+Theorem C07_getters_grow_with_inserts : forall m db new,
+  (forall x, In x (spec_measurements db) -> In x (spec_measurements (db ++ new))) /\
+  (forall x, In x (spec_tag_keys m db) -> In x (spec_tag_keys m (db ++ new))) /\
+  (forall x, In x (spec_field_keys m db) -> In x (spec_field_keys m (db ++ new))) /\
+  spec_len (db ++ new) = spec_len db + length new /\
+  spec_timestamps m (db ++ new) = spec_timestamps m db ++ spec_timestamps m new.
+Proof. exact getters_grow_with_inserts. Qed.
+
+Print Assumptions C07_drop_removes_measurement.
+Print Assumptions C07_getters_grow_with_inserts.
 Print Assumptions C07_len_exact.
 Print Assumptions C07_measurements.
 Print Assumptions C07_tag_keys.
